@@ -170,6 +170,9 @@ def shards(tier):
         for part in range(2):
             out.append(("pair", mode, part))
     for api in ("G", "RS"):
+        for pdist in PARAM_DISTS:
+            out.append(("params", api, pdist))
+    for api in ("G", "RS"):
         for n in range(0, NCHOICE[tier] + 1):
             for part in range(1 if n < 4 else 4):
                 out.append(("choice", api, n, part, 1 if n < 4 else 4))
@@ -181,6 +184,31 @@ PAIR_DISTS = {
     "RS": ["random_sample", "randint", "normal", "normal_daargs", "choice", "permutation", "multinomial"],
     "MOD": ["random", "randint", "normal", "choice"],
 }
+
+
+# array-valued distribution parameters: two arrays from IDENTICALLY seeded generators, same shape and chunks, whose parameter
+# vectors differ (every ordered pair of vectors over PARAM_VALUES, so pairs sharing a prefix / suffix / nothing are all there)
+PARAM_DISTS = ("normal_loc", "normal_scale_kw", "poisson_lam", "uniform_high_kw")
+PARAM_KINDS = ("np", "da")
+PARAM_VALUES = (1.0, 1000.0)
+PARAM_SHAPES = {"quick": [(2,), (3,), (2, 2), (2, 3)], "thorough": [(2,), (3,), (4,), (2, 2), (2, 3), (3, 2)]}
+
+
+def param_draw(rng, pdist, pkind, vec, shp, ch):
+    import dask.array as da
+
+    v = np.array(vec, dtype="f8")  # broadcast against the last axis of shp
+    v = v if pkind == "np" else da.from_array(v, chunks=1)
+    kw = {"size": shp, "chunks": ch}
+    if pdist == "normal_loc":
+        return rng.normal(v, 0.01, **kw)
+    if pdist == "normal_scale_kw":
+        return rng.normal(0.0, scale=v, **kw)
+    if pdist == "poisson_lam":
+        return rng.poisson(v, **kw)
+    if pdist == "uniform_high_kw":
+        return rng.uniform(0.0, high=v, **kw)
+    raise ValueError(pdist)
 
 
 def sizes_for_choice(n):
@@ -209,6 +237,17 @@ def cases_of(shard, tier):
                     i += 1
                     if i % 2 == part:
                         yield ("pair", mode, dist, shp, ch)
+    elif kind == "params":
+        api, pdist = shard[1], shard[2]
+        for seed in SEEDS[tier][:2]:
+            for shp in PARAM_SHAPES[tier]:
+                vecs = list(itertools.product(PARAM_VALUES, repeat=shp[-1]))
+                for ch in enums.chunkings(shp):
+                    for pkind in PARAM_KINDS:
+                        for va in vecs:
+                            for vb in vecs:
+                                if va != vb:
+                                    yield ("params", api, pdist, seed, shp, tuple(ch), pkind, va, vb)
     elif kind == "choice":
         api, n, part, nparts = shard[1:5]
         pops = ["int", "np"] + [("da", c) for c in (enums.compositions(n) if n else [(0,)])]
@@ -343,6 +382,39 @@ def run_pair(case, ctx):
             ctx.violation(f"{key}:same-draw{sfx}", case, f"{sep!r}")
 
 
+def run_params(case, ctx):
+    import dask.array as da
+
+    _, api, pdist, seed, shp, ch, pkind, va, vb = case
+    nblocks = int(np.prod([len(c) for c in ch]))
+    key = "seeded-wrap-params"
+    try:
+        x = param_draw(rng_of(api, seed), pdist, pkind, va, shp, ch)
+        y = param_draw(rng_of(api, seed), pdist, pkind, vb, shp, ch)
+        x2 = param_draw(rng_of(api, seed), pdist, pkind, va, shp, ch)
+        vx, problem = arr.compute_blocks(x)
+        vy = y.compute()
+        jx, jy = da.compute(x, y)
+        tx, ty = da.compute(x, y, scheduler="threads", num_workers=3)
+        st = da.stack([x, y]).compute()
+        v2 = x2.compute()
+    except Hang:
+        raise
+    except Exception as e:  # noqa: BLE001
+        ctx.case(case, nontrivial=nblocks >= 2, outcome=("exc", type(e).__name__))
+        ctx.violation(f"{key}:dask-raises:{type(e).__name__}", case, repr(e))
+        return
+    ctx.case(case, nontrivial=nblocks >= 2, outcome=(pdist, vx.tobytes()[:32]))
+    if problem:
+        ctx.violation(f"{key}:lazy-metadata", case, problem)
+        return
+    if x.name != x2.name or not same(vx, v2):
+        ctx.violation(f"{key}:rebuild-differs", case, f"{x.name} {vx!r} vs {x2.name} {v2!r}")
+    # computing the two arrays in ONE graph is one more recomputation of each: same values as alone
+    if not (same(vx, jx) and same(vy, jy) and same(vx, tx) and same(vy, ty) and same(vx, st[0]) and same(vy, st[1])):
+        ctx.violation(f"{key}:joint-compute-differs", case, f"alone {vx!r}, {vy!r}; together {jx!r}, {jy!r}; stacked {st!r}")
+
+
 def choice_known_class(case, exc=None):
     _, api, seed, pop, n, size, ch, p, shuffle = case
     if exc is not None and isinstance(exc, IndexError) and (size is None or size == ()):
@@ -437,6 +509,8 @@ def run_case(case, ctx):
             run_det(("det",) + tuple(case[1:]), ctx, processes_pool=pool)
     elif case[0] == "pair":
         run_pair(case, ctx)
+    elif case[0] == "params":
+        run_params(case, ctx)
     elif case[0] == "choice":
         run_choice(case, ctx)
     else:
@@ -449,7 +523,9 @@ def RULE(tier):
         f"permutation, multinomial), RandomState ({len(RS_DISTS)}), module-level functions after da.random.seed ({len(MOD_DISTS)})}} x shapes "
         f"{shapes(tier)} x EVERY chunking: rebuild from the same seed (same name, same bits, also for the 2nd draw of the generator), recompute, real "
         "thread pool, reverse-order controlled executor, every block computed alone; multiprocessing scheduler for every chunking of (2,3) in the master. "
-        "unseeded: triples of arrays from {3 fresh generators, one generator used 3 times} x {Generator, RandomState, module-level} x 7 distributions x "
+        "array-valued parameters: pairs of arrays from identically seeded generators (Generator, RandomState) x {normal loc, normal scale=, poisson lam, uniform high=} x "
+        "{ndarray, dask array} x EVERY ordered pair of distinct parameter vectors over {1, 1000} x shapes (2,),(3,),(2,2),(2,3) x every chunking: rebuild equal, "
+        "compute(x, y) (sync, threads) and stack == the separate computes. unseeded: triples of arrays from {3 fresh generators, one generator used 3 times} x {Generator, RandomState, module-level} x 7 distributions x "
         "every shape/chunking: pairwise distinct names and key sets, compute(a,b,c) (sync, threads) and stack == separate computes. "
         f"choice(replace=False): population n <= {NCHOICE[tier]} as int / ndarray / dask array with EVERY chunking x size in {{None, (), 0..n+1, 2-d a*b<=n}} "
         "x every output chunking x p in {None, skewed ndarray, skewed dask array} x shuffle: drawn elements lie in the population and are pairwise "
